@@ -4,7 +4,8 @@
 # Everything happens in scratch worktrees under /tmp/vmut; /repo and /verif/evidence are not touched.
 set -u
 export GOFLAGS=-mod=mod GOPROXY=off GOSUMDB=off GOTOOLCHAIN=local
-cd /verif
+V=$(cd "$(dirname "$0")/.." && pwd)
+cd "$V"
 dirs=("$@"); [ ${#dirs[@]} -gt 0 ] || dirs=(seeded/*/)
 for sd in "${dirs[@]}"; do
   sd=${sd%/}; name=$(basename "$sd"); prop=${name%%-*}
@@ -13,7 +14,7 @@ for sd in "${dirs[@]}"; do
   git -C /repo worktree add -q --detach "$d/repo" HEAD || { echo "$name worktree-failed"; continue; }
   cp "$sd/demo_test.go" "$d/repo/zz_seeded_demo_test.go"
   clean=$(cd "$d/repo" && go test -vet=off -count=1 -run 'Demo|Seeded|C[0-9][0-9]' . >/dev/null 2>&1; echo $?)
-  if ! (cd "$d/repo" && git apply "/verif/$sd/patch.diff" 2>/dev/null); then
+  if ! (cd "$d/repo" && git apply "$V/$sd/patch.diff" 2>/dev/null); then
     echo "$name patch=DOES-NOT-APPLY"; git -C /repo worktree remove --force "$d/repo"; rm -rf "$d"; continue
   fi
   mut=$(cd "$d/repo" && go test -vet=off -count=1 -run 'Demo|Seeded|C[0-9][0-9]' . >/dev/null 2>&1; echo $?)
@@ -21,7 +22,7 @@ for sd in "${dirs[@]}"; do
   checks="${CHECKS:-$prop}"
   res=""
   for id in $checks; do
-    out=$(VERIF_REPO="$d/repo" VERIF_OUT="$d/out" timeout 1500 /verif/check "$id" --tier "${MUT_TIER:-quick}" 2>&1); rc=$?
+    out=$(VERIF_REPO="$d/repo" VERIF_OUT="$d/out" timeout 1500 "$V/check" "$id" --tier "${MUT_TIER:-quick}" 2>&1); rc=$?
     res="$res $id=$rc"
   done
   echo "$name patch=ok demo_clean=$clean demo_mutant=$mut checks:$res"
